@@ -117,7 +117,7 @@ PROP = {
                    "from the Go source on every run and proved equal to the model (4 tie theorems), 51 structural facts pin the bus call "
                    "order, the metadata key, and ctx.go; the harness validates model = implementation and the property monitor on every case.",
     "level_text": "proof",
-    "level_note": "Model-level theorems for all registries, flags, messages and outcome assignments; correspondence to the Go code by "
+    "level_note": "settleOf is derived from the handleMessage model of C02 (Props/C15Router.lean) whose tie is re-proved in this check. Model-level theorems for all registries, flags, messages and outcome assignments; correspondence to the Go code by "
                   "generated tie theorems (closure bodies), structural facts (buses, marshaler glue, ctx) and differential execution "
                   "against the real Router/processors/buses. json/protobuf codecs and reflection naming are parameters (tested only).",
     "technique": "decision functions + effect lists in Lean 4; structural induction over the registry for the group loop; deep-embedded "
